@@ -18,9 +18,13 @@
  * @param rdlen the rlden of the rr, to avoid reading beyond the record
  * @return the number of bytes read from rdata, or -1 in case of errors
  */
-static uint16_t dnsreadcharstring(char *dest, const u_char *rdata, uint16_t offset, uint16_t rdlen) {
+static int dnsreadcharstring(char *dest, const u_char *rdata, uint16_t offset, uint16_t rdlen) {
     uint16_t len;
 
+    if (offset >= rdlen) {
+        debug(DBG_ERR, "dnsreadcharstring: error parsing char string, offset is beyond radata!");
+        return -1;
+    }
     len = *(rdata + offset++);
     if (offset + len > rdlen) {
         debug(DBG_ERR, "dnsreadcharstring: error parsing char string, length is beyond radata!");
@@ -44,7 +48,7 @@ static void *parsesrvrr(ns_msg msg, ns_rr *rr) {
     const u_char *rdata;
     int len;
 
-    if (ns_rr_type(*rr) != ns_t_srv)
+    if (ns_rr_type(*rr) != ns_t_srv || ns_rr_rdlen(*rr) < 6)
         return NULL;
 
     response = malloc(sizeof(struct srv_record));
@@ -86,7 +90,7 @@ static void *parsenaptrrr(ns_msg msg, ns_rr *rr) {
     const u_char *rdata;
     uint16_t rdlen, offset = 0;
     int len;
-    if (ns_rr_type(*rr) != ns_t_naptr) {
+    if (ns_rr_type(*rr) != ns_t_naptr || ns_rr_rdlen(*rr) < 4) {
         return NULL;
     }
 
